@@ -22,7 +22,9 @@ source was consistent before it:
   closure        every reference in the produced schema `is` the registered object (fields,
                  arguments, input fields, interfaces, union members, roots, directive arguments,
                  the implementations index, the possible-types and literal-types caches); removed
-                 elements are invisible to introspection and to queries;
+                 elements are invisible to introspection and to queries; a query applying a custom
+                 directive with input-object literals sees exactly the predicted argument and input
+                 field names (one-operation histories);
   preservation   structural dump of the result == model prediction (mc.ref.cs_predict): the source
                  with exactly the targeted edit, including resolvers, default / type / subscription
                  resolvers, python names, defaults, descriptions, deprecations; for clone and
@@ -80,14 +82,14 @@ BOUNDS = {
     "quick": {
         "sequence_length": 2,
         "sources": ["code", "sdl"],
-        "first_operation": "full menu (101): every single type / field / input field / directive hidden + 4 pairs, stacked with camel case, clone, camel, 13 extension documents (7 adding built-in typed members, 6 adding members typed by existing enum / input / object / interface / union / scalar types, bare and wrapped, to interfaces + implementers, objects, input objects, unions, enums), directives, fix",
+        "first_operation": "full menu (103): every single type / field / input field / directive hidden + 4 pairs, stacked with camel case, clone, camel, 13 extension documents (7 adding built-in typed members, 6 adding members typed by existing enum / input / object / interface / union / scalar types, bare and wrapped, to interfaces + implementers, objects, input objects, unions, enums), directives, fix",
         "second_operation": "representative menu: one operation per operation kind, hide-type once per kind of type",
     },
     "thorough": {
         "sequence_length": 3,
         "sources": ["code", "sdl"],
-        "first_operation": "full menu (166): quick menu + every pair of types hidden together",
-        "second_operation": "full quick menu (101)",
+        "first_operation": "full menu (168): quick menu + every pair of types hidden together",
+        "second_operation": "full quick menu (103)",
         "triples": "all triples over the representative menu",
     },
 }
